@@ -3,7 +3,7 @@
 From Coq Require Import String.
 From Coq Require Import ZArith SpecFloat.
 Require Import OV.Base.Bytes OV.Base.Py OV.Base.PyInt OV.Base.Str OV.Base.Regex OV.Base.PyFloat.
-Require Import OV.Gen.C10_Units OV.Model.C10.
+Require Import OV.Model.C10_Regex OV.Gen.C10_Units OV.Model.C10.
 Require Import OV.Proofs.C10_Regex OV.Proofs.C10_Form OV.Proofs.C10_Float OV.Proofs.C10 OV.Proofs.C10_Qemu.
 Open Scope Z_scope.
 
@@ -11,18 +11,22 @@ Open Scope Z_scope.
 Example ex_numform : numform (lit "+.5").
 Proof. exists (lit "+"), [], (lit "."), (lit "5"). repeat split; auto. discriminate. Qed.
 
-Example ex_form_mixed : form mixed_prefixes (lit "+.5kibit" ++ [10%N]).
+Example ex_form_mixed : form mixed_prefixes (lit "+.5kibit").
 Proof.
-  exists (lit "+.5"), (lit "ki"), (lit "bit"), [10%N].
+  exists (lit "+.5"), (lit "ki"), (lit "bit").
   split; [reflexivity|]. split; [exact ex_numform|].
-  split; [right; vm_compute; tauto|]. split; [vm_compute; tauto|]. right. reflexivity.
+  split; [right; vm_compute; tauto|]. vm_compute; tauto.
 Qed.
+
+(* a trailing newline is not admitted any more (repair fc24f32) *)
+Example ex_newline_rejected : string_to_bytes (lit "1KB" ++ [10%N]) (lit "IEC") false = Exn ValueError.
+Proof. vm_compute. reflexivity. Qed.
 
 Example ex_system_mixed : In (lit "mixed", mixed_prefixes) spec_systems.
 Proof. vm_compute. tauto. Qed.
 
 Example ex_value_mixed :
-  string_to_bytes (lit "+.5kibit" ++ [10%N]) (lit "mixed") false = Ok (NFloat (S754_finite false 4503599627370496 (-46))).
+  string_to_bytes (lit "+.5kibit") (lit "mixed") false = Ok (NFloat (S754_finite false 4503599627370496 (-46))).
 Proof. vm_compute. reflexivity. Qed.   (* 0.5 * 1024 / 8 = 64.0 *)
 
 (* not_admitted_raises_ValueError: a prefix foreign to the system, an unknown system *)
@@ -40,13 +44,11 @@ Proof. intros prefixes H. vm_compute in H. intuition congruence. Qed.
 (* prefix_table_total: a captured prefix *)
 Example ex_captured_prefix : exists base rx e g,
   lookup (lit "IEC") unit_system_info = Some (base, rx) /\
-  re_match rx (lit "7QiB") = Some (e, g) /\ group_text (lit "7QiB") g 2 = Some (lit "Qi").
+  rz_match rx (lit "7QiB") = Some (e, g) /\ group_text (lit "7QiB") g 2 = Some (lit "Qi").
 Proof. vm_compute. repeat eexists. Qed.
 
-(* only_ValueError: both disjuncts occur *)
+(* only_ValueError: a malformed text; a quantity beyond binary64 under return_int (Proofs/C10.v: overflow_witness_int) *)
 Example ex_value_error : string_to_bytes (lit "1.KB") (lit "SI") true = Exn ValueError.
-Proof. vm_compute. reflexivity. Qed.
-Example ex_overflow_zone : overflow_zone overflow_witness (lit "IEC") = true.
 Proof. vm_compute. reflexivity. Qed.
 
 (* ceil_is_ceiling: -2.5 *)
